@@ -5,6 +5,7 @@ package main
 import (
 	"fmt"
 	"os"
+	"regexp"
 	"sort"
 	"strconv"
 	"strings"
@@ -53,6 +54,7 @@ func runC06(c *Ctx) {
 	c10LengthWord(c, c.Root(), "C06.faithful")
 	c15DecodeResult(c, c.Root(), "C06.faithful")
 	c06InvalidRecordRejects(c, c.Root(), "C06.faithful")
+	c10HeaderLenRange(c, c.Root(), "C06.faithful")
 
 	m := c.Root()
 	r := c.R
@@ -300,6 +302,8 @@ var allowedRejects = map[string]string{
 
 // c06AllowedReject classifies an atom of a path condition: the literal (atom or its negation)
 // that is a tabled reason for rejecting a file, and the reason.
+var roundPlusRe = regexp.MustCompile(`^\(internal/counter\.round\[int\]\((\d+), (\d+)\) \+ (\d+)\)$`)
+
 func c06AllowedReject(a BExpr) (BExpr, string) {
 	switch x := a.(type) {
 	case bOrd:
@@ -310,6 +314,9 @@ func c06AllowedReject(a BExpr) (BExpr, string) {
 				return mkOrd(x.A, ">", x.B), "len(data) < pageSize"
 			}
 			return mkOrd(x.A, "<", x.B), "len(data) < pageSize"
+		case strings.Contains(d, "*conv<*uint32>"):
+			// a comparison of the header-length word, as the code wrote it
+			return a, "header length out of range"
 		case x.A == "builtin:len(param:data)" || x.B == "builtin:len(param:data)":
 			// shorter than some smaller constant (the length guard of a hand-written prefix
 			// test): a fortiori shorter than a page
@@ -317,15 +324,22 @@ func c06AllowedReject(a BExpr) (BExpr, string) {
 			if x.A == "builtin:len(param:data)" {
 				other = x.B
 			}
-			if k, err := strconv.Atoi(other); err == nil && k >= 0 && k <= 16384 {
+			k, err := strconv.Atoi(other)
+			if err != nil {
+				// round(A, U) + B with constants: at most A + U - 1 + B (contract of round, linear.go)
+				if mm := roundPlusRe.FindStringSubmatch(other); mm != nil {
+					a, _ := strconv.Atoi(mm[1])
+					u, _ := strconv.Atoi(mm[2])
+					b, _ := strconv.Atoi(mm[3])
+					k, err = a+u-1+b, nil
+				}
+			}
+			if err == nil && k >= 0 && k <= 16384 {
 				if x.A == other {
 					return mkOrd(x.A, ">", x.B), "len(data) < pageSize"
 				}
 				return mkOrd(x.A, "<", x.B), "len(data) < pageSize"
 			}
-		case strings.Contains(d, "*conv<*uint32>"):
-			// a comparison of the header-length word, as the code wrote it
-			return a, "header length out of range"
 		}
 	case bBool:
 		switch {
